@@ -1344,6 +1344,9 @@ func main() {
 		for i := 0; i < n/2+8; i++ {
 			emitInvisible(w, seed, i, dir)
 		}
+		for i := 0; i < n/2+8; i++ {
+			emitTwoEnvelopes(w, seed, i, dir)
+		}
 		w.Close()
 	case "genjv":
 		var n int
@@ -1384,6 +1387,8 @@ func replay(in map[string]any, dir, repo string) {
 		emitHistory(w, seed, num("history_index"))
 	case "history-cert":
 		emitCertHistory(w, seed, num("history_index"))
+	case "two-envelopes":
+		emitTwoEnvelopes(w, seed, num("env_index"), dir)
 	case "invisible":
 		emitInvisible(w, seed, num("inv_index"), dir)
 	case "sign", "sign-envelope", "sign-verify", "sign-good":
